@@ -17,6 +17,10 @@ pub struct StarkProverKnobs {
     /// `(auxiliary polynomial index, row, canonical value)` edits applied to the auxiliary
     /// (lookup helper / running sum / cross-table) columns before they are committed.
     pub aux_edits: Vec<(usize, usize, u64)>,
+    /// Column-major trace (`aux_trace[column][row]`, canonical values) from which the lookup
+    /// helper columns are computed instead of the committed trace: a prover that keeps the
+    /// auxiliary columns of one trace while committing to another.
+    pub aux_trace: Option<Vec<Vec<u64>>>,
 }
 
 static KNOBS: RwLock<Option<StarkProverKnobs>> = RwLock::new(None);
